@@ -190,7 +190,7 @@ struct Case {
 	else if (!eq_) c.fail(fn, icls, acls, "wrong-result", std::string(desc) + " on " + c.where() + ": " + k.diff()); } while (0)
 
 // ------------------------------------------------------------------ path counters (vacuity)
-struct Paths { uint64_t nontrivial, beyond_first, tok_comment_cross, tok_newline_cross, tok_empty_in_comment, zbase_unreadable, zbase_newline, trim_cross, quote_cross, read_cross, argv_multi, array_args, memcpy_both, memcpy_partial, append_multi, qget_two, with_empty, inline_form, list_form; };
+struct Paths { uint64_t nontrivial, beyond_first, tok_comment_cross, tok_newline_cross, tok_empty_in_comment, zbase_unreadable, zbase_newline, trim_cross, quote_cross, read_cross, argv_multi, array_args, memcpy_both, memcpy_partial, append_multi, append_fail_late, append_fail_reloc, qget_two, with_empty, inline_form, list_form; };
 static Paths P;
 
 // ------------------------------------------------------------------ search functions on iovec lists
@@ -392,6 +392,7 @@ void mc_jobs(Tier t, std::vector<std::string> &jobs)
 	for (size_t n = b.Lcpy + 1; n-- > 0;) jobs.push_back(fmt("memcpy/n=%zu", n));
 	for (const char *g : {"argv", "search"}) for (size_t n = 0; n <= 3 && n <= b.Lstr; ++n) jobs.push_back(fmt("%s/n=%zu", g, n));
 	jobs.push_back("append");
+	jobs.push_back("append-fail");
 	for (size_t m = 1; m <= b.Qmax; ++m) jobs.push_back(fmt("qget/max=%zu", m));
 }
 
@@ -621,6 +622,101 @@ static void body_append(Run &r, const std::string &, Ctx &x)
 	r.transitions += c.evals;
 }
 
+// ---- mpt_message_append that has to FAIL: one fragment claims an absurd length (its base is an exactly sized
+// 1-byte block, so the allocation for it fails before a byte can be copied; any read of the claimed range would be an
+// ASan report).  The fragmented form (leading small fragments, the oversized one at every position, trailing ones)
+// must behave like the contiguous message of the same total length: same result, array content as before the call.
+// case vector: [small length, array state, composition, oversize index]; position of the oversized fragment, the
+// placement of one zero-length fragment and both message forms are enumerated inside the case
+static const size_t OVERSIZE[3] = { (size_t) -1 / 2, (size_t) -1 / 4, (size_t) 1 << 44 };
+struct ArrState { std::string before; };
+static void arr_prepare(mpt::array &a, int state)
+{
+	// 0: no buffer at all   1: some content, room left   2: buffer exactly full (next append has to relocate it)
+	if (!state) return;
+	mpt::mpt_array_append(&a, 2, "XY");
+	if (state == 2) { mpt::array::content *b = a._buf.instance(); size_t left = b->_size - b->_used; std::string fill(left, 'f'); if (left) mpt::mpt_array_append(&a, left, fill.data()); }
+}
+static std::string arr_content(const mpt::array &a)
+{
+	mpt::array::content *b = a._buf.instance();
+	return b ? std::string((const char *) b->data(), b->_used) : std::string();
+}
+static std::string append_fail_blob(const mpt::message &m, int state, bool *asan, bool *relocated)
+{
+	mpt::array a; arr_prepare(a, state);
+	std::string before = arr_content(a);
+	const void *b0 = a._buf.instance();
+	asan_error();
+	int ret = mpt::mpt_message_append(&a, &m);
+	*asan = asan_error();
+	if (relocated) *relocated = b0 && a._buf.instance() != b0;
+	std::string after = arr_content(a);
+	Sink k; k.begin(); k.num(ret); k.num((int64_t) after.size()); k.num(after == before ? 1 : 0); k.num((int64_t) fnv(after.data(), after.size())); k.bytes(after.data(), after.size() > 40 ? 40 : after.size());
+	std::string out = k.blob();
+	mpt::mpt_array_clone(&a, 0);
+	return out;
+}
+static void body_append_fail(Run &r, const std::string &, Ctx &x)
+{
+	size_t N = r.tier == Quick ? 4 : 5;
+	size_t n = x.choose(N + 1);
+	int state = (int) x.choose(3);
+	uint8_t s[32]; label(s, n);
+	static std::vector<size_t> parts, lens;
+	composition(n, x.choose(ncomp(n)), parts);
+	size_t bi = x.choose(3), big = OVERSIZE[bi];
+	static std::map<std::vector<size_t>, std::string> refs;
+	static Frags one, f;
+	Case c(r); c.s = s; c.n = n; c.lens = &lens;
+	r.hint("mpt_message_append(oversized fragment)");
+	static const char *stn[] = {"array-without-buffer", "array-with-content", "array-buffer-exactly-full"};
+	std::string acls = std::string(stn[state]) + ",oversized-fragment";
+	std::vector<size_t> key; key.push_back(n); key.push_back(state); key.push_back(bi);
+	if (!refs.count(key)) {
+		// contiguous form: one part of n + big bytes based on the exactly sized n-byte block (forked: historic clen==0 runaway)
+		lens.assign(1, n); one.build(s, lens);
+		mpt::message m = one.msg(1); m.used = n + big;
+		std::string o = in_child([&]() { bool as = false; std::string b = append_fail_blob(m, state, &as, 0); return (as ? std::string("A") : std::string("R")) + b; }, 5);
+		refs[key] = o; ++c.evals;
+		c.isref = true;
+		if (o.empty() || o[0] == '\x01') c.fail("mpt_message_append", "", acls, "fault", fmt("mpt_message_append(msg{used=%zu+%zu,clen=0}) does not return (forked child)", n, big));
+		else if (o[0] == 'A') c.fail("mpt_message_append", "", acls, "asan", fmt("mpt_message_append(msg{used=%zu+%zu,clen=0}) on %s: the claimed range / array was accessed outside its blocks (AddressSanitizer)", n, big, stn[state]));
+		c.isref = false;
+	}
+	const std::string &ref = refs[key];
+	bool haveref = !ref.empty() && ref[0] == 'R';
+	for (const std::vector<uint8_t> &z : zero_places(parts.size(), 1)) {
+		with_zeros(parts, z, lens);
+		size_t nsmall = lens.size();
+		for (size_t pos = 0; pos <= nsmall; ++pos) {
+			f.build(s, lens);
+			// insert the oversized fragment at index pos (new exactly sized iovec array, 1-byte block as base)
+			struct iovec *v2 = (struct iovec *) f.get((nsmall + 1) * sizeof *v2);
+			for (size_t i = 0, j = 0; i <= nsmall; ++i) { if (i == pos) { v2[i].iov_base = f.get(1); *(uint8_t *) v2[i].iov_base = '!'; v2[i].iov_len = big; } else v2[i] = f.vec[j++]; }
+			f.vec = v2; f.nv = nsmall + 1;
+			size_t before_big = 0; for (size_t i = 0; i < pos; ++i) before_big += lens[i];
+			std::string cut; { size_t p = 0; for (size_t i = 0, j = 0; i <= nsmall; ++i) { if (i) cut += " + "; if (i == pos) cut += fmt("<%zu bytes claimed>", big); else { cut += show(s + p, lens[j]); p += lens[j++]; } } }
+			if (r.replaying) r.note("message %s, %s", cut.c_str(), stn[state]);
+			for (int form = 0; form < 2; ++form) {
+				c.form = form ? "message, first part inline" : "message, pure iovec list";
+				mpt::message m = f.msg(form);
+				bool as = false, reloc = false;
+				std::string got = append_fail_blob(m, state, &as, &reloc);
+				++c.evals; ++r.states; ++P.nontrivial; ++(form ? P.inline_form : P.list_form);
+				if (before_big) { ++P.append_fail_late; if (reloc) ++P.append_fail_reloc; }
+				std::string where = cut + " (" + c.form + ") onto " + stn[state];
+				std::string sig_i = before_big ? "after-leading-fragments" : "first-data";
+				if (as) { c.isref = false; c.fail("mpt_message_append", sig_i, acls, "asan", "mpt_message_append on " + where + ": access outside the message blocks / stale array buffer (AddressSanitizer)"); }
+				else if (!haveref) r.count("append_without_reference(contiguous call faulted)");
+				else if (got != ref.substr(1)) c.fail("mpt_message_append", sig_i, acls, "wrong-result", "mpt_message_append on " + where + ": {result, array length, unchanged?, hash, bytes} fragmented form gives {" + Sink::decode((const uint8_t *) got.data(), got.size()) + "}, contiguous form of the same total length gives {" + Sink::decode((const uint8_t *) ref.data() + 1, ref.size() - 1) + "}");
+			}
+			if (n == 3 && pos == 2 && nsmall == 2 && state == 2 && bi == 0) r.sample("append-fail: " + cut + " onto an array whose buffer is exactly full, as list and inline message, vs one part of the same total length");
+		}
+	}
+	r.transitions += c.evals;
+}
+
 // mpt_message_get: every ring state (max,off,len) x (offset,take); reference = same content stored unwrapped (off=0)
 static void body_qget(Run &r, const std::string &job, Ctx &x)
 {
@@ -678,6 +774,7 @@ static void body(Run &r, const std::string &job, Ctx &x)
 	else if (job.compare(0, 5, "read/") == 0) body_read(r, job, x);
 	else if (job.compare(0, 7, "memcpy/") == 0) body_memcpy(r, job, x);
 	else if (job == "append") body_append(r, job, x);
+	else if (job == "append-fail") body_append_fail(r, job, x);
 	else if (job.compare(0, 5, "qget/") == 0) body_qget(r, job, x);
 }
 
@@ -687,7 +784,7 @@ void mc_explore(Run &r, const std::string &job)
 	const char *req[] = {"nontrivial", "cases_with_zero_length_fragment", "form_inline_first_part", "form_pure_iovec_list", "search_hit_beyond_first_fragment",
 	                     "memtok_comment_started_in_earlier_fragment", "memtok_comment_ended_by_newline_in_later_fragment", "memtok_zero_length_fragment_inside_comment", "empty_fragment_base_unreadable", "empty_fragment_base_foreign_newline", "argv_space_at_fragment_end", "argv_quoted_input_fragmented", "argv_iterated_more_than_one_argument",
 	                     "array_message_more_than_one_argument", "read_crossing_fragment_boundary", "memcpy_source_and_target_fragmented", "memcpy_open_length_partial",
-	                     "append_multi_fragment", "qget_two_part_message"};
+	                     "append_multi_fragment", "append_fails_after_leading_fragments_went_in", "append_fails_after_buffer_was_relocated", "qget_two_part_message"};
 	for (const char *q : req) r.require(q);
 	dfs(r, [&](Ctx &x) { body(r, job, x); });
 	r.count("nontrivial", P.nontrivial); r.count("cases_with_zero_length_fragment", P.with_empty);
@@ -698,7 +795,8 @@ void mc_explore(Run &r, const std::string &job)
 	r.count("argv_iterated_more_than_one_argument", P.argv_multi); r.count("array_message_more_than_one_argument", P.array_args);
 	r.count("read_crossing_fragment_boundary", P.read_cross);
 	r.count("memcpy_source_and_target_fragmented", P.memcpy_both); r.count("memcpy_open_length_partial", P.memcpy_partial);
-	r.count("append_multi_fragment", P.append_multi); r.count("qget_two_part_message", P.qget_two);
+	r.count("append_multi_fragment", P.append_multi); r.count("append_fails_after_leading_fragments_went_in", P.append_fail_late); r.count("append_fails_after_buffer_was_relocated", P.append_fail_reloc);
+ r.count("qget_two_part_message", P.qget_two);
 }
 
 void mc_replay(Run &r, const std::string &job, const Vec &v)
